@@ -294,6 +294,10 @@ func emptyRoot() *rootInfo {
 // ------------------------------------------------------------------ the world
 
 type world struct {
+	// couple: the contract trie carries the storage roots as leaves (as core/state does), so that the
+	// state root commits to the storage tries. Off for hashdb, which ignores state roots and whose
+	// model treats the tries as independent.
+	couple  bool
 	v       *variant
 	h       int
 	owners  map[string]felt.Address // "s1", "s2"
@@ -303,7 +307,7 @@ type world struct {
 }
 
 func newWorld(v *variant, h int) *world {
-	w := &world{v: v, h: h, owners: map[string]felt.Address{}, roots: map[int]*rootInfo{0: emptyRoot()}, seen: map[string]map[trieutils.Path]bool{}}
+	w := &world{couple: true, v: v, h: h, owners: map[string]felt.Address{}, roots: map[int]*rootInfo{0: emptyRoot()}, seen: map[string]map[trieutils.Path]bool{}}
 	w.owners["s1"] = felt.Address(*v.ownerKey(0))
 	w.owners["s2"] = felt.Address(*v.ownerKey(1))
 	for _, t := range trieNames {
@@ -394,7 +398,7 @@ func (w *world) applyChanges(open opener, parent *rootInfo, ch []slot) (*committ
 				return nil, fmt.Errorf("update %s trie of root %d: %w", t, parent.id, err)
 			}
 		}
-		if t == "ct" { // storage roots are contract leaves
+		if t == "ct" && w.couple { // storage roots are contract leaves
 			for _, s := range []string{"s1", "s2"} {
 				sr := out.roots[s]
 				o := w.owners[s]
@@ -418,6 +422,9 @@ func (w *world) applyChanges(open opener, parent *rootInfo, ch []slot) (*committ
 	out.contracts = contracts
 	cr, lr := out.roots["ct"], out.roots["cl"]
 	out.label = felt.StateRootHash(refimpl.StateCommitment(&cr, &lr, true))
+	if !w.couple {
+		out.label = felt.StateRootHash(felt.One) // hashdb ignores it; a zero label would make trie2 skip the database
+	}
 	return out, nil
 }
 
@@ -432,7 +439,7 @@ func (w *world) realKV(t string, kv map[string]map[string]int, roots map[string]
 			out[refimpl.Key(&b)] = *w.v.value(x)
 		}
 	}
-	if t == "ct" {
+	if t == "ct" && w.couple {
 		for _, s := range []string{"s1", "s2"} {
 			if r := roots[s]; !r.IsZero() {
 				o := w.owners[s]
@@ -516,7 +523,7 @@ func (w *world) newRoot(id int, parent *rootInfo, ch []slot, pres []slot, si int
 		want := refimpl.Root(w.realKV(t, ri.kv, cm.roots), uint(w.v.Height), refHash(t))
 		r := ri.roots[t]
 		if !want.Equal(&r) {
-			return nil, &mismatch{key: "triedb:raw:trie-root-differs-from-refimpl:" + t,
+			return nil, &mismatch{key: "triedb:rawdb:trie-root-differs-from-refimpl:" + t,
 				what:     fmt.Sprintf("root of the %s trie committed on the raw scheme differs from the protocol commitment of the key/value set (refimpl.Root) at model root %d", t, id),
 				expected: want.String(), observed: r.String()}
 		}
@@ -555,14 +562,14 @@ func (w *world) newRoot(id int, parent *rootInfo, ch []slot, pres []slot, si int
 			pp := p
 			blob, err := trieutils.GetNodeByPath(twin, id.Bucket(), &o, &pp, n.leaf)
 			if err != nil || !bytes.Equal(blob, n.blob) {
-				return nil, &mismatch{key: "triedb:raw:disk-differs-from-node-sets:" + t,
+				return nil, &mismatch{key: "triedb:rawdb:disk-differs-from-node-sets:" + t,
 					what:     fmt.Sprintf("raw scheme disk lacks or alters node %s of trie %s after the update to model root %d (err %v)", pp.String(), t, ri.id, err),
 					expected: fmt.Sprintf("%x", n.blob), observed: fmt.Sprintf("%x", blob)}
 			}
 		}
 	}
 	if cnt != len(dump) {
-		return nil, &mismatch{key: "triedb:raw:disk-differs-from-node-sets:extra",
+		return nil, &mismatch{key: "triedb:rawdb:disk-differs-from-node-sets:extra",
 			what:     fmt.Sprintf("raw scheme disk holds %d entries, the node sets describe %d, after the update to model root %d", len(dump), cnt, ri.id),
 			expected: cnt, observed: len(dump)}
 	}
